@@ -326,7 +326,6 @@ def run_path(case, drv):
             i = int(np.nonzero(arg < 0)[0][0])
             res.fail(f'negative-noise: {kind} inside {uid!r} was given a negative power for channel {i} ({arg[i]!r} W)')
             break
-    S.classify_raman_pump_order(res, rec)
     # every attenuation/gain call (connector, padding, VOA, fibre loss, gain) leaves the shares bit-identical
     for kind, (p0, s0, a0, n0), arg, (p1, s1, a1, n1), uid in rec.op_events:
         if kind in ('attLin', 'attDb', 'gainLin', 'gainDb'):
